@@ -186,6 +186,30 @@ Theorem C14_probes_spec : forall (cells : list nat) (comp : nat) (phi : nat -> n
 Proof. exact gen_probes_spec. Qed.
 Print Assumptions C14_probes_spec.
 
+(* probes on a basis RESTRICTED to the cells tind (dof table element_dofs[:, tind]): the regenerated column map sends every
+   located global cell to a position of tind holding that cell (and the call fails if a located cell is not in tind), so
+   row r of probes(x) @ y again uses the dofs of the located GLOBAL cell — any tind (any order, repetitions), any points *)
+Theorem C14_probes_spec_restricted : forall (edofs : list (list nat)) (nelems : nat) (ti cells cells' : list nat)
+    (comp : nat) (phi : nat -> nat -> nat -> Q) (y : nat -> Q) (r : nat),
+    gen_probe_restrict nelems (Some ti) cells = Some cells' -> (0 < length cells)%nat -> (r < comp * length cells)%nat ->
+    coo_apply (gen_probe_rows (length edofs) comp (length cells)) (gen_probe_cols (restrict_edofs edofs ti) cells' comp)
+              (gen_probe_vals (length edofs) comp (length cells) phi) y r
+    == qsum (map (fun k => phi k (r / length cells)%nat (r mod length cells)%nat
+                           * y (nth (nth (r mod length cells) cells 0%nat) (nth k edofs []) 0%nat)) (seq 0 (length edofs))).
+Proof. exact gen_probes_spec_restricted. Qed.
+Print Assumptions C14_probes_spec_restricted.
+
+Theorem C14_restricted_column_map : forall nelems ti cells,
+    (forall cells', gen_probe_restrict nelems (Some ti) cells = Some cells' ->
+       Forall2 (fun c c' => (c' < length ti)%nat /\ nth c' ti 0%nat = c) cells cells') /\
+    (forall c, In c cells -> ~ In c ti -> gen_probe_restrict nelems (Some ti) cells = None) /\
+    gen_probe_restrict nelems None cells = Some cells.
+Proof.
+  intros nelems ti cells. split; [intros cells'; apply gen_probe_restrict_spec|].
+  split; [intros c; apply gen_probe_restrict_outside | apply gen_probe_unrestricted].
+Qed.
+Print Assumptions C14_restricted_column_map.
+
 (* non-vacuity: two triangles (0,0),(4,0),(0,4) and (4,0),(4,4),(0,4); a useless candidate list; three points — a
    vertex, an edge point, an interior point — are located (the vertex misses the candidate, so ALL points are redone
    exhaustively and the edge point gets cell 0; without the vertex the edge point gets the candidate cell 1); adding the
@@ -203,6 +227,12 @@ Proof.
   split; intros H; vm_compute in H; discriminate H.
 Qed.
 Print Assumptions C14_instance.
+
+Example C14_restrict_instance :
+  gen_probe_restrict 6 (Some [4; 1; 5]%nat) [5; 4; 4; 1]%nat = Some [2; 0; 0; 1]%nat /\
+  gen_probe_restrict 6 (Some [4; 1; 5]%nat) [5; 3]%nat = None.
+Proof. vm_compute. split; reflexivity. Qed.
+Print Assumptions C14_restrict_instance.
 
 (* non-vacuity of the quadrilateral theorems: a counter-clockwise trapezoid and a clockwise kite satisfy convex_quads; the
    finder over the regenerated split locates a vertex, a point of the diagonal and an interior point, and raises outside *)
